@@ -188,21 +188,20 @@ CLAIMS["C20"] = dict(
 
 CLAIMS["C13"] = dict(
     category="other",
-    text=("Decides: (D1) the three merge helpers never overwrite an entry filled from the first mesh (membership test + read of the "
-          "previous entry), the second mesh's node-indexed data are shifted by the first mesh's node count and element-indexed "
-          "data by its element count, side numbers are not shifted, and the merged Mesh receives each merged collection in its own "
-          "field; (D2) each index-valued Exodus record is shifted by exactly -1 and coordinate records by 0, block element ranges "
-          "are accumulated by a loop-carried += of the block's own count, the TRI6 permutation literal is a permutation whose "
-          "vertex and mid-edge images equal the parent element's vertex/face tables at degree 2 (constant-folded from "
-          "make_parent_element_2d), vertices are taken from the first three Exodus columns before permuting; (D3) in order "
-          "elevation the right neighbour gets the flipped edge-node list under elemRight >= 0, node numbers come from consecutive "
-          "disjoint ranges stacked like the coordinates, and the interior-node affine map agrees with the convention of "
-          "FunctionSpace.map_element_shape_grads; merging is lossless on every path of the merge loops (path enumeration with "
-          "propositional feasibility: a store that does not contain the first mesh's entry is allowed only where the key is new or the "
-          "old entry is empty); reference-element tables as in C03 (vertex/face/interior node lists of plain and bubble elements, "
-          "degrees 1..5). Areas, adjacency correctness and node placement as numbers are NOT decided."),
-    design_ref="DESIGN.md section 4, C13",
-    technique="static analysis: path-sensitive lossy-merge detection, index-kind typing, shift counting via algebraic normal forms, constant folding of table formulas, partial evaluation of reference-element tables, sibling comparison")
+    text=("Decided on values obtained by interpreting the source (rules/C03_interp.py MeshInterp; rules/C13_io.py): (D1) the merge functions on "
+          "dictionaries with symbolic members (same and distinct names, None, empty sets): the multiset of members is preserved modulo the node / "
+          "element offset, combine_mesh on two meshes with different node and element counts is compared field by field; (D2) read_exodus_mesh on "
+          "fake Exodus datasets (analyser-side objects answering dimensions / variables / records; three blocks, named and unnamed sets, with and "
+          "without id map, a 6-node triangle file): every index record arrives zero-based exactly once, blocks are consecutive element ranges, "
+          "the native 6-node order follows the parent element's own tables; read_json_mesh on a fake document; (D3) order elevation on four sample "
+          "simplex meshes with symbolic vertex coordinates (orders 2..4, with and without bubble): connectivity in range and using every node, "
+          "vertex numbering kept, every node at the affine image of its reference node (decides the shared-edge flip, offsets, stacking order and "
+          "the interior-map convention at once), no duplicate nodes, copyNodeSets / createNodeSetsFromSideSets options; create_edges against its "
+          "contract; the parent-element tables for degrees 1..5 by partial evaluation. Mesh-level facts are decided on the sample topologies and "
+          "datasets (recorded as an assumption). Reading real files and floating-point coordinates are NOT decided. REFUTED only for derived "
+          "facts (a member that is missing, a shift that is not -1, a node at the wrong place ...)."),
+    design_ref="DESIGN.md section 4, C13 and section 11.8.2",
+    technique="static analysis: abstract interpretation of the source on symbolic dictionaries, fake datasets and sample topologies with symbolic coordinates; exact identities; partial evaluation of the reference-element builders")
 
 CLAIMS["C14"] = dict(
     category="other",
@@ -358,24 +357,23 @@ CLAIMS["C10"] = dict(
 
 CLAIMS["C03"] = dict(
     category="other",
-    text=("Decides structural necessary conditions: compute_shapes handles every element-type constant and each maker stamps its "
-          "own type; each mode2D selects a volume function and axisymmetry flag that agree; axisymmetric volumes are "
-          "2*pi*(shapes @ X_nodes[:,0])*(Cartesian volumes of the same element) with the same radial column as the axisymmetric "
-          "gradient; gradients and volumes use the vertices of the same parent element, det J of the gradient map equals the volume "
-          "Jacobian on generic points, the order-elevation node map follows the same vertex convention, values and volumes are "
-          "restricted by the same block; the four edge-normal siblings agree; solve(J^T, dN^T)^T types to [node, x]; by constant "
-          "folding of the literal tables every triangle-rule branch has positive weights, interior points and all monomial moments "
-          "up to the largest degree it is selected for equal a!b!/(a+b+2)! (2e-14), and the 1D rule has 2n-1 >= degree for degree "
-          "0..25; edge integration uses jacobian*weights, the 1D parent element's shapes and Mesh.compute_edge_vectors. Partition of "
-          "unity / reproduction by the Vandermonde-inverted basis and the divergence theorem on physical meshes are NOT decided. "
-          "Reference-element tables: the plain and bubble triangle builders and the line element are partially evaluated for degrees "
-          "1..5 (1..4 with bubble) with symbolic Lobatto abscissae; vertexNodes sit at (1,0),(0,1),(0,0), every faceNodes row lists "
-          "the d+1 nodes of its edge counter-clockwise at Lobatto spacing, interiorNodes is the complement, nodes are distinct and the "
-          "bubble element's faces are the plain element's faces renumbered."),
-    design_ref="DESIGN.md section 4, C03",
-    technique="static analysis: dispatch-table and sibling rules, axis typing, symbolic identities on generic points, constant folding of quadrature tables against exact moments, partial evaluation of reference-element index tables with symbolic abscissae")
-
-NA = {}
+    text=("Every clause is decided on values obtained by interpreting the library's source (rules/C03_interp.py, MeshInterp: an extension of "
+          "optilint.tensoreval with NumPy indexing / broadcasting / stack, sort, unique, einsum, det, inv, exact solve ... semantics, vmap with "
+          "in_axes, partial, _replace, classes, loops and exceptions; strict: an unmodelled operation aborts => UNDECIDED): (a) compute_shapes "
+          "dispatches to the right shape routine with the right arguments; (b, c, e) on generic order-2 elements (plain and bubble) with symbolic "
+          "reference shape tables the factory and the three element kernels give vols = det(dx/dxi) w_q [2 pi sum_n N_qn r_n in axisymmetric mode] "
+          "and mapped gradients with g . dx/dxi = dN (one identity that covers axis typing and 'same affine map'), block integration with an opaque "
+          "kernel, hoop strain entries; order elevation on four sample simplex meshes (concrete connectivity with shared edges in several local-side "
+          "pairings and rotated vertex orders, symbolic vertex coordinates, orders 2..4 with and without bubble): connectivity in range and using "
+          "every node, vertex numbering kept, node k of every element at the affine image of reference node k (this is 'neighbours share edge nodes "
+          "in matching order'), no duplicates; the parent-element tables for degrees 1..5 by partial evaluation against the geometric "
+          "specification; (d) the four edge-normal siblings; (f) the triangle quadrature rule for every integer degree against the exact monomial "
+          "moments and the 1D rule against an opaque Gauss-Legendre provider or the moments on [0,1]; (g) the edge integral with opaque 1D shape "
+          "functions and integrand, role by role; create_edges against its contract. Mesh-level facts are decided on the sample topologies "
+          "(recorded as an assumption), not for every mesh. REFUTED only for derived facts (a node number, a failing coordinate identity, a "
+          "singular Jacobian ...)."),
+    design_ref="DESIGN.md section 4, C03 and section 11.8.2",
+    technique="static analysis: abstract interpretation of the source on generic elements and sample topologies with symbolic coordinates; exact rational identities; partial evaluation of the reference-element builders")
 
 
 def main():
